@@ -273,7 +273,7 @@ def run(rep):
         if f['key'] in seen:
             continue
         seen.add(f['key'])
-        rep.violation(f['what'], f, True, key='py-mm:' + f['key'])
+        rep.violation(f['what'], f, not core.is_correspondence(f), key='py-mm:' + f['key'])
     if not ok and not findings:
         rep.violation('proof obligation used by C17 no longer checks: ' + json.dumps(detail)[:600], {'broken': detail}, False)
     return rep
